@@ -526,7 +526,19 @@ class Engine:
         interp.top_fn = fn
         # run
         try:
-            result = interp.call_closure(fn, [], call_args, top=True)
+            pos = []
+            fa = fn.node.args
+            if fa.vararg is not None and isinstance(call_args.get(fa.vararg.arg), tuple):
+                # a config entry named like *args supplies the extra positional arguments ...
+                call_args = dict(call_args)
+                extra = call_args.pop(fa.vararg.arg)
+                names = [p.arg for p in fa.posonlyargs + fa.args]
+                pos = [call_args.pop(nm) for nm in names] + list(extra)
+            if fa.kwarg is not None and isinstance(call_args.get(fa.kwarg.arg), dict):
+                # ... and one named like **kwargs the extra keyword arguments
+                call_args = dict(call_args)
+                call_args.update(call_args.pop(fa.kwarg.arg))
+            result = interp.call_closure(fn, pos, call_args, top=True)
         except PyRaise as pr:
             self._check_raise(path, c, args, pr.exc)
             return
